@@ -198,7 +198,11 @@ def h_wall(name, path):
         pre = preimages(w)
         count = S.add(*[S.b2i(ok) for (_o, ok) in pre]) if pre else 0
         # finding keys name the transition the wall time is nearest to; only needed in the native replay
-        i = (_interval(w, [tt + max(offs) for tt in trans]) if trans else -1) if not ctx.symbolic else 0
+        # (the zone's own wall-time bisect result: pinned by the path, so the key is the same for every witness of it)
+        i = 0
+        if not ctx.symbolic:
+            i = z._find_last_transition(naive)
+            i = -1 if i is None else i
         ex = tz.datetime_exists(naive, z)
         ctx.check(S.eq(bool(ex), S.le(1, count)), "datetime_exists disagrees with the number of UTC pre-images",
                   key="%s:~%d:exists" % (name, i), zone=name)
